@@ -38,11 +38,23 @@ func TestVerifC18(t *testing.T) {
 			}
 			// forms: 0 = for target, 1..len(others) = for another container, then pod-wide, bare; also the same forms of a decoy key
 			nforms := 1 + len(others) + 2
-			for mask := 0; mask < 1<<uint(nforms); mask++ {
+			// empty: which of the three forms that matter (container-specific, pod-wide, bare) carry an empty value -
+			// a present-but-empty annotation is still present and must win over lower-precedence forms
+			for maskE := 0; maskE < (1<<uint(nforms))*8; maskE++ {
+				mask, empty := maskE>>3, maskE&7
+				val := func(bit int, v string) string {
+					if empty&bit != 0 {
+						return ""
+					}
+					return v
+				}
+				if (empty&1 != 0 && mask&1 == 0) || (empty&2 != 0 && mask&(1<<uint(nforms-2)) == 0) || (empty&4 != 0 && mask&(1<<uint(nforms-1)) == 0) {
+					continue
+				}
 				ann := map[string]string{}
 				expect, present := "", false
 				if mask&1 != 0 {
-					ann[key+"/container."+target] = "for-target"
+					ann[key+"/container."+target] = val(1, "for-target")
 				}
 				for i, o := range others {
 					if mask&(1<<uint(1+i)) != 0 {
@@ -50,20 +62,20 @@ func TestVerifC18(t *testing.T) {
 					}
 				}
 				if mask&(1<<uint(nforms-2)) != 0 {
-					ann[key+"/pod"] = "pod-wide"
+					ann[key+"/pod"] = val(2, "pod-wide")
 				}
 				if mask&(1<<uint(nforms-1)) != 0 {
-					ann[key] = "bare"
+					ann[key] = val(4, "bare")
 				}
 				ann[keys[0]+"x/pod"] = "decoy"
 				ann["x"+key+"/container."+target] = "decoy"
 				switch {
 				case mask&1 != 0:
-					expect, present = "for-target", true
+					expect, present = val(1, "for-target"), true
 				case mask&(1<<uint(nforms-2)) != 0:
-					expect, present = "pod-wide", true
+					expect, present = val(2, "pod-wide"), true
 				case mask&(1<<uint(nforms-1)) != 0:
-					expect, present = "bare", true
+					expect, present = val(4, "bare"), true
 				}
 				p := cch.InsertPod(&nri.PodSandbox{Id: fmt.Sprintf("p%d", n), Name: "pod", Namespace: "ns", Annotations: ann}, nil)
 				got, ok := p.GetEffectiveAnnotation(key, target)
@@ -73,7 +85,7 @@ func TestVerifC18(t *testing.T) {
 				if mask != 0 {
 					w.Res.Nontrivial++
 				}
-				outcomes[got] = true
+				outcomes[fmt.Sprint(got, ok)] = true
 				if ok != present || got != expect {
 					w.Report(mc.Violation{Property: "C18", Oracle: "effective-annotation", Signature: "cache-effective-annotation", Scenario: "cache",
 						Trace:  []string{fmt.Sprintf("key=%s container=%s annotations=%v", key, target, ann)},
